@@ -846,6 +846,34 @@ func x7Bare(p *an.Prog, r *an.Result) {
 				for _, o := range an.Origins(rv, an.StepValue) {
 					ld, ok := o.(*ssa.UnOp)
 					if !ok || ld.X != ssa.Value(nilG) {
+						// the converse: under kind == Ptr anything but the nil value is returned only for a pointer found non-nil
+						oblk := ret.Block()
+						if oi, isInstr := o.(ssa.Instruction); isInstr && oi.Block() != nil && oi.Parent() == uf {
+							oblk = oi.Block()
+						}
+						inPtr, nonNil := false, false
+						for _, gd := range an.GuardsAt(oblk) {
+							if b, ok := gd.Cond.(*ssa.BinOp); ok && b.Op == token.EQL && gd.True {
+								for _, pair := range [][2]ssa.Value{{b.X, b.Y}, {b.Y, b.X}} {
+									if isPkgType(pair[0].Type(), "reflect", "Kind") && kindOfWhole(pair[0], 0) {
+										if c, ok := an.ConstInt(pair[1]); ok && c == 22 {
+											inPtr = true
+										}
+									}
+								}
+							}
+							if c := an.CallOf(gd.Cond); c != nil && !gd.True && (an.CallName(c) == "(reflect.Value).IsNil" || an.CallName(c) == "(reflect.Value).IsZero") {
+								nonNil = true
+							}
+						}
+						if inPtr {
+							r.Counts["non-nil results in the pointer arm"]++
+							if nonNil {
+								r.OK(an.FuncName(uf), "a pointer becomes a value only when it is not nil", o.Pos(), "under IsNil() == false")
+							} else {
+								r.Bad(an.FuncName(uf), "a nil pointer can become a value other than nil", an.InstrPos(ret), "in the arm for kind Ptr a result other than the nil value is produced where IsNil has not been found false: a nil *T bound to a name is truthy, is not == nil and does not take `when nil`")
+							}
+						}
 						continue
 					}
 					r.Counts["nil value returns"]++
